@@ -171,7 +171,8 @@ func instreamFineSediment(upstreamMass, lateralMass, reachLocalMass, reachVolume
 func floodPlainDepositionEmperical(outflow, totalDailyConstsituentMass,
 	bankFullFlow, fineSedSettVelocityFlood, floodPlainArea float64) float64 {
 
-	if (outflow < bankFullFlow) || (bankFullFlow==0.0) {
+	if (outflow <= bankFullFlow) || (bankFullFlow==0.0) {
+		// (at exactly bank-full there is no flood flow; without a floodplain the expression below would be 0/0)
 		return 0.0
 	}
 
